@@ -869,6 +869,13 @@ class Exec:
             hi = self.ev(e.slice.upper, env) if e.slice.upper is not None else None
             st = self.ev(e.slice.step, env) if e.slice.step is not None else None
             return self.getslice(o, lo, hi, st)
+        if isinstance(e.slice, ast.Tuple) and any(isinstance(x, ast.Slice) for x in e.slice.elts):
+            # extended indexing a[..., ::-1]: a tuple of indices / slice objects, handed to the model of the indexed object
+            def one(x):
+                if isinstance(x, ast.Slice):
+                    return slice(*(None if y is None else self.ev(y, env) for y in (x.lower, x.upper, x.step)))
+                return self.ev(x, env)
+            return self.getitem(o, tuple(one(x) for x in e.slice.elts))
         return self.getitem(o, self.ev(e.slice, env))
 
     def getslice(self, o, lo, hi, st):
